@@ -399,3 +399,62 @@ Proof. exact (conj toy_laws (conj toy_no_nmi_at_end comp_stream_refines_toy)). Q
 Print Assumptions C11_comp_stream_reader_refines.
 Print Assumptions C11_comp_stream_agrees_whole_block.
 Print Assumptions C11_comp_stream_hyps_satisfiable.
+
+
+(* ---------- work package info: the stack `mlar info` reads through ----------
+   `ArchiveInfoReader::from_config` (mlar/src/main.rs) builds the stack `ArchiveReader::from_config` builds: Tie A — the
+   two function bodies, statement by statement, give the same event list (rewind, header, load_persistent, raw new,
+   reset_position, encryption reader if ENCRYPT, compression reader if COMPRESS, ONE initialize of the top layer, footer,
+   rewind), the same layer order and the same layer types; model — both continue from the same Archive.open_stack
+   result, so C11_stack_refines / C11_stack_open are statements about the stack info reads through; where the library
+   reader fails info fails alike, where it opens info holds the same footer (first alternative: the u64 sum of the size
+   table overflowing under overflow checks — not reachable through read_sizes_info, fewer than LIMIT / 4 entries < 2^32) *)
+From MLA Require Import Blocks Reader Format Ecies Archive CliInfo CliInfoStack.
+
+Theorem C11_info_stack_is_the_reader_stack :
+  (Src.INFO_OPEN_EVENTS = Src.READER_OPEN_EVENTS /\ Src.READER_OPEN_EVENTS = open_events /\
+   Src.INFO_LAYER_ORDER = Src.READER_LAYER_ORDER /\ Src.INFO_LAYER_ORDER = Format.layer_order /\
+   Src.INFO_LAYER_TYPES = Src.READER_LAYER_TYPES /\ Src.INFO_compressed_size_from_sizes_info = 1) /\
+  (forall (CHUNK TAG BLOCK LIMIT : N) (dh : bytes -> bytes -> bytes) (kdf : bytes -> bytes) (wdec wtag : bytes -> bytes -> bytes)
+         (ksf : bytes -> bytes -> N -> N -> N) (tagf : bytes -> bytes -> N -> bytes -> bytes) (dec : bytes -> bytes) (ovf : bool) 
+         (a : bytes) (privs : list bytes) (h : Format.header) (rest : bytes) (e c : bool) (k n : bytes)
+         (s : st (StackS CHUNK TAG BLOCK ksf tagf dec a e c k n)),
+       read_header LIMIT a = Ok (h, rest) ->
+       load_config dh kdf wdec wtag h privs = Ok (e, c, k, n) ->
+       open_stack CHUNK TAG BLOCK LIMIT ksf tagf dec a e c k n (len a - len rest) = Ok s ->
+       archive_open CHUNK TAG BLOCK LIMIT dh kdf wdec wtag ksf tagf dec a privs =
+       (do r <- ropen (StackS CHUNK TAG BLOCK ksf tagf dec a e c k n) s;
+        Ok
+          (existT (fun p : oparams => rstate (stack_of CHUNK TAG BLOCK ksf tagf dec a p))
+             {| op_enc := e; op_comp := c; op_key := k; op_nonce := n; op_off := len a - len rest |} r)) /\
+       info_from_config CHUNK TAG BLOCK LIMIT dh kdf wdec wtag ksf tagf dec ovf a privs =
+       (do csz <-
+        match top_sizes CHUNK TAG BLOCK ksf tagf dec a e c k n s with
+        | Some si => do t <- get_compressed_size ovf si; Ok (Some t)
+        | None => Ok None
+        end; do r <- ropen (StackS CHUNK TAG BLOCK ksf tagf dec a e c k n) s; Ok {| ir_enc := e; ir_cmp := c; ir_comp := csz; ir_meta := r_meta r |})) /\
+  (forall (CHUNK TAG BLOCK LIMIT : N) (dh : bytes -> bytes -> bytes) (kdf : bytes -> bytes) (wdec wtag : bytes -> bytes -> bytes)
+         (ksf : bytes -> bytes -> N -> N -> N) (tagf : bytes -> bytes -> N -> bytes -> bytes) (dec : bytes -> bytes) (ovf : bool) 
+         (a : bytes) (privs : list bytes),
+       info_from_config CHUNK TAG BLOCK LIMIT dh kdf wdec wtag ksf tagf dec ovf a privs = Crash SITE_CSIZE_SUM \/
+       match archive_open CHUNK TAG BLOCK LIMIT dh kdf wdec wtag ksf tagf dec a privs with
+       | Ok (existT _ p r) =>
+           exists csz : option N,
+             info_from_config CHUNK TAG BLOCK LIMIT dh kdf wdec wtag ksf tagf dec ovf a privs =
+             Ok {| ir_enc := op_enc p; ir_cmp := op_comp p; ir_comp := csz; ir_meta := r_meta r |}
+       | Err e => info_from_config CHUNK TAG BLOCK LIMIT dh kdf wdec wtag ksf tagf dec ovf a privs = Err e
+       | Crash x => info_from_config CHUNK TAG BLOCK LIMIT dh kdf wdec wtag ksf tagf dec ovf a privs = Crash x
+       end).
+Proof. exact (conj info_open_events_src (conj info_and_reader_share_the_stack info_is_reader_stack)). Qed.
+Print Assumptions C11_info_stack_is_the_reader_stack.
+
+(* non-vacuity: an archive without layers (9-byte header, end-of-archive tag, empty footer) opens in both, same footer *)
+Example C11_info_stack_example :
+  let a := [77; 76; 65; 1; 0; 0; 0; 0; 0] ++ [254] ++ [0; 0; 0; 0; 0; 0; 0; 0] ++ [8; 0; 0; 0] in
+  info_from_config 64 16 256 1000 (fun _ _ => []) (fun _ => []) (fun _ _ => []) (fun _ _ => []) (fun _ _ _ _ => 0) (fun _ _ _ _ => []) (fun x => x) true a []
+    = Ok (mkIR false false None []) /\
+  match archive_open 64 16 256 1000 (fun _ _ => []) (fun _ => []) (fun _ _ => []) (fun _ _ => []) (fun _ _ _ _ => 0) (fun _ _ _ _ => []) (fun x => x) a [] with
+  | Ok (existT _ p r) => Reader.r_meta r = [] /\ op_enc p = false /\ op_comp p = false
+  | _ => False
+  end.
+Proof. cbv zeta. split; [vm_compute; reflexivity|]. vm_compute. repeat split. Qed.
